@@ -10,7 +10,7 @@
    Not modelled: segments built from YAML configurations (MBI/HAB/AHAB/FCB/XMCD objects; their own export/parse round
    trip is C01/C06/C07/C12) -- a segment is its raw bytes and len(segment) = number of bytes; per-class recognisers of
    structured segments are parameters (rec/find) of the parse model. *)
-From Coq Require Import ZArith NArith List Bool.
+From Coq Require Import ZArith NArith List Bool Uint63.
 Require Import Value Bytes GenBimg.
 Import ListNotations.
 Local Open Scope Z_scope.
@@ -294,6 +294,16 @@ Definition syn (a : N) (n : Z) : list N :=
   | S (S k) => a :: repeat (a + 32)%N k ++ [(a + 64)%N]
   end.
 
+(* input encoding of long byte strings in case files: 7 bytes per primitive integer, little endian (a list literal of
+   N costs ~50 us per byte to type-check, a primitive integer literal almost nothing) *)
+Fixpoint le_bytes (k : nat) (z : Z) : list N :=
+  match k with O => [] | S k' => Z.to_N (Z.land z 255) :: le_bytes k' (Z.shiftr z 8) end.
+Fixpoint unpack63 (n : nat) (l : list int) : list N :=
+  match l with
+  | [] => []
+  | x :: tl => le_bytes (Nat.min n 7) (Uint63.to_Z x) ++ unpack63 (n - 7) tl
+  end.
+
 (* output encoding: VInt k = "payload k of the case verbatim", VList [VInt b; VInt n] = n times byte b *)
 Fixpoint find_ref (ps : list (list N)) (l : list N) (k : Z) : option (Z * nat) :=
   match ps with
@@ -391,8 +401,16 @@ Definition run_case (fn : Z) (args : list value) : value :=
   | _, _ => VErr E_BADCASE
   end.
 
-Example ex_merge_rt1166 :
-  run_merge 14 1024 [syn 129 256; syn 130 512; []; syn 132 3]
+(* literal layouts for examples (independent of the order of the regenerated tables) *)
+Definition ex_table_rt1170_nor : table :=
+  mkTable 0%N [mkSeg 1 0 1 256 false true; mkSeg 2 1024 1 512 true true; mkSeg 6 2048 1 2048 false true;
+               mkSeg 11 4096 1 (-1) true false].
+
+Example ex_merge_rt1170 :
+  (match set_init ex_table_rt1170_nor 1024 with
+   | Ok io => describe ex_table_rt1170_nor io [syn 129 256; syn 130 512; []; syn 132 3]
+   | Err k => VErr k
+   end)
   = VList [VInt 1024;
            VList [VList [VInt 1; VInt 0; VInt 256; VErr 1]; VList [VInt 0; VInt 1; VInt 512; VInt 0];
                   VList [VInt 0; VInt 0; VInt 0; VInt 1024]; VList [VInt 0; VInt 1; VInt 3; VInt 3072]];
